@@ -4,7 +4,13 @@ from .math.brents_root_finding import find_root_brents
 from .math.krylov_exp import krylov_exp, DEFAULT_MAX_KRYLOV_DIM
 from .jump_lindblad_operators import compute_noise_from_lindbladians
 from .math.matmul import matmul_2x2_with_batched
-from .utils import get_max_rss, apply_measurement_errors, unix_like, init_logging
+from .utils import (
+    get_max_rss,
+    apply_measurement_errors,
+    unix_like,
+    init_logging,
+    aggregation_kwargs,
+)
 
 __all__ = [
     "__version__",
@@ -21,6 +27,7 @@ __all__ = [
     "apply_measurement_errors",
     "unix_like",
     "init_logging",
+    "aggregation_kwargs",
 ]
 
 __version__ = "2.7.5"
